@@ -6,6 +6,8 @@ ID="$1"; shift
 CHECKS="${*:-${ID:0:3}}"
 cd /verif
 [ -z "$(git -C /repo status --short)" ] || { echo "/repo not clean"; exit 2; }
+# evidence/*.json must describe the unchanged tree: keep it aside while the changed tree is checked
+EVSAVE=$(mktemp -d); cp -a evidence/. "$EVSAVE"/ 2>/dev/null
 git -C /repo apply /verif/seeded/$ID/patch.diff || { echo "cannot apply to /repo"; exit 2; }
 RESULTS=""
 for c in $CHECKS; do
@@ -17,6 +19,7 @@ for c in $CHECKS; do
   RESULTS="$RESULTS{\"check\":\"$c\",\"exit\":$EC,\"violation_lines\":$NV,\"clauses\":\"$CL\"},"
 done
 git -C /repo checkout -- . ; git -C /repo status --short | head -3
+cp -a "$EVSAVE"/. evidence/ 2>/dev/null; rm -rf "$EVSAVE"
 [ -n "${NOMETA:-}" ] && exit 0
 python3 - "$ID" "[${RESULTS%,}]" <<'PY'
 import json,sys
